@@ -25,7 +25,7 @@ sys.path.insert(0, os.path.dirname(os.path.dirname(os.path.abspath(__file__))))
 import z3
 from checks import common
 from smt import solve
-from mirsym import interp as I, models as M, containers as K, dump
+from mirsym import interp as I, models as M, containers as K, pycont as PC, dump
 
 R = M.R
 val = M.val
@@ -35,7 +35,10 @@ MAXLEN = 1 << 20
 def bv(n, w=64): return z3.BitVecVal(n, w)
 
 
-GABI = {"goblin::elf::program_header::PT_LOAD": (1, 32), "goblin::elf::program_header::PF_X": (1, 32), "goblin::elf::program_header::PF_W": (2, 32),
+R386 = {"R_386_32": 1, "R_386_PC32": 2, "R_386_GOT32": 3, "R_386_PLT32": 4, "R_386_COPY": 5, "R_386_GLOB_DAT": 6, "R_386_JMP_SLOT": 7, "R_386_RELATIVE": 8,
+        "R_386_GOTOFF": 9, "R_386_GOTPC": 10, "R_386_TLS_TPOFF": 14, "R_386_IRELATIVE": 42}
+GABI = {"goblin::elf::dynamic::DT_PLTGOT": (3, 64), "goblin::elf::reloc::R_MIPS_REL32": (3, 32),
+        "goblin::elf::program_header::PT_LOAD": (1, 32), "goblin::elf::program_header::PF_X": (1, 32), "goblin::elf::program_header::PF_W": (2, 32),
         "goblin::elf::program_header::PF_R": (4, 32), "goblin::elf::sym::STB_GLOBAL": (1, 8), "goblin::elf::sym::STB_WEAK": (2, 8),
         "goblin::elf::header::EM_386": (3, 16), "goblin::elf::header::EM_MIPS": (8, 16), "goblin::elf::header::EM_PPC": (20, 16),
         "goblin::elf::header::EM_X86_64": (62, 16), "goblin::elf::header::EM_AARCH64": (183, 16)}
@@ -63,7 +66,7 @@ class AbsMem:
 
 def program():
     path, dt = dump.mir_path()
-    want = lambda n: any(x in n for x in ("loader::", "backing::", "lib/loader/", "lib/memory/", "architecture::", "memory::", "const loader", "const memory", "const backing", "symbol::"))
+    want = lambda n: any(x in n for x in ("loader::", "backing::", "lib/loader/", "lib/memory/", "architecture::", "memory::", "const loader", "const memory", "const backing", "symbol::", "elf_linker::", "get_dynamic"))
     return I.Program(path, "/repo/lib", want), dt
 
 
@@ -103,8 +106,12 @@ class Harness:
         header = I.Agg("struct", "Header", [I.Opaque("e_ident"), bv(2, 16), self.e_machine, bv(1, 32), self.e_entry] + [I.Opaque("hdr")] * 9)
         phs = K.VecVal([I.Agg("struct", "ProgramHeader", [p[k] for k in ("p_type", "p_flags", "p_offset", "p_vaddr", "p_paddr", "p_filesz", "p_memsz", "p_align")]) for p in self.ph])
         f = [header, phs, K.VecVal([]), StrTab("shdr_strtab"), StrTab("dynstrtab"), SymTab(self, "dyn"), SymTab(self, "sym"), StrTab("strtab"), M.none(),
-             I.Opaque("dynrelas"), I.Opaque("dynrels"), RelocSec(self), K.VecVal([]), M.none(), M.none(), K.VecVal([]), K.VecVal([]), K.VecVal([]),
+             RelocSec(self, "none"), RelocSec(self, "none"), RelocSec(self), K.VecVal([]), M.none(), M.none(), K.VecVal([]), K.VecVal([]), K.VecVal([]),
              z3.BoolVal(True), z3.BoolVal(False), self.e_entry, z3.Not(self.endian_big), I.Opaque("ctx")]
+        if getattr(self, "dynamic", None) is not None:
+            f[8] = M.some(I.Agg("struct", "Dynamic", [PC.PVec([I.Agg("struct", "Dyn", [bv(tag), v_]) for tag, v_ in self.dynamic]), I.Opaque("info")]))
+        if getattr(self, "dynrels", None) is not None:
+            f[10] = RelocSec(self, "dynrels")
         return I.Agg("struct", "goblin::Elf", f)
 
     def elf_self(self):
@@ -122,13 +129,19 @@ class SymTab:
 
 
 class RelocSec:
-    def __init__(self, h): self.h = h
+    def __init__(self, h, which="plt"): self.h = h; self.which = which
 
 
 class Name:
     """&str / String taken from a string table: identified by (table, index)."""
     def __init__(self, tab, idx): self.tab = tab; self.idx = idx
     def __repr__(self): return f"Name({self.tab}[{self.idx}])"
+
+    def key(self):
+        i = z3.simplify(self.idx) if z3.is_bv(self.idx) else self.idx
+        if z3.is_bv(i) and not z3.is_bv_value(i):
+            raise I.Unsupported("symbol name index is symbolic")
+        return ("name", self.tab, i.as_long() if z3.is_bv(i) else i)
 
 
 def models_for(h):
@@ -161,7 +174,7 @@ def models_for(h):
     def m_symtab_iter(it, c, a):
         t = val(a[0])
         if isinstance(t, SymTab): return K.IterVal([h.sym_agg(s) for s in t.syms()])
-        if isinstance(t, RelocSec): return K.IterVal([I.Agg("struct", "Reloc", [p["r_offset"], M.none(), p["r_sym"], p["r_type"]]) for p in h.plt])
+        if isinstance(t, RelocSec): return K.IterVal([I.Agg("struct", "Reloc", [p["r_offset"], M.none(), p["r_sym"], p["r_type"]]) for p in (h.plt if t.which == "plt" else (getattr(h, "dynrels", None) or [] if t.which == "dynrels" else []))])
         if isinstance(t, K.IterVal): return t
         raise I.Unsupported(f"iter of {t!r}")
     def m_symtab_get(it, c, a):
@@ -248,6 +261,8 @@ class Interp19(I.Interp):
         t = text.strip()
         if t in GABI:
             v, w = GABI[t]; return z3.BitVecVal(v, w)
+        if t.startswith("goblin::elf::reloc::") and t.split("::")[-1] in R386:
+            return z3.BitVecVal(R386[t.split("::")[-1]], 32)
         m = re.match(r"^memory::MemoryPermissions::(\w+)$", t)
         if m:
             cands = [n for n in self.prog.raw if n.startswith("const memory::<impl at") and n.endswith(">::" + m.group(1))]
@@ -532,8 +547,279 @@ def check_new(item):
     return out
 
 
+# ------------------------------------------------ D: ElfLinker (one object) --
+
+class LinkMem:
+    """ElfLinker.memory seen through the contract of C16: a log of 32-bit writes over an arbitrary initial content."""
+    def __init__(self):
+        self.writes = []          # (addr, value32)
+        self.old = z3.Array("linkmem0", z3.BitVecSort(64), z3.BitVecSort(32))
+        self.mapped = z3.Array("linkmapped", z3.BitVecSort(64), z3.BoolSort())
+
+
+def linker_models(h, lm, loaded_key="main"):
+    def m_from_file(it, c, a):
+        e = h.elf_self(); e.fields[0] = val(a[1]); h.loaded_base = val(a[1])
+        return I.Agg("enum", "Result", [e], 0)
+    def m_set32(it, c, a):
+        lm.writes.append((val(a[1]), val(a[2]))); return I.Agg("enum", "Result", [None], 0)
+    def m_get32(it, c, a):
+        ad = val(a[1])
+        for wa, wv in reversed(lm.writes):
+            if it.branch(wa == ad): return M.some(wv)
+        if it.branch(z3.Select(lm.mapped, ad)): return M.some(z3.Select(lm.old, ad))
+        return M.none()
+    return [
+        (R(r"Option::<Vec<PathBuf>>::as_ref$"), lambda it, c, a: (M.some(I.ValRef(val(a[0]).fields[0])) if val(a[0]).variant == 1 else M.none())),
+        (R(r"Option::<PathBuf>::unwrap_or_else::<"), lambda it, c, a: (val(a[0]).fields[0] if val(a[0]).variant == 1 else I.Opaque("path"))),
+        (R(r"loader::elf::elf::Elf::from_file_with_base_address::<"), m_from_file),
+        (R(r"as loader::Loader>::memory$"), lambda it, c, a: I.Agg("enum", "Result", [I.Agg("struct", "Memory", [None, PC.PMap()])], 0)),
+        (R(r"backing::Memory::sections$"), lambda it, c, a: I.ValRef(val(a[0]).fields[1])),
+        (R(r"Path::file_name$"), lambda it, c, a: M.some(loaded_key)),
+        (R(r"OsStr::to_str$"), lambda it, c, a: M.some(val(a[0]))),
+        (R(r"Path::new::<"), lambda it, c, a: I.Opaque("path")),
+        (R(r"<std::string::String as Deref>::deref$|<String as Deref>::deref$|<std::string::String as Clone>::clone$|<String as Clone>::clone$|<u64 as ToOwned>::to_owned$"), lambda it, c, a: val(a[0])),
+        (R(r"loader::elf::elf::Elf::dt_needed$"), lambda it, c, a: I.Agg("enum", "Result", [PC.PVec()], 0)),
+        (R(r"backing::Memory::set32$"), m_set32),
+        (R(r"backing::Memory::get32$"), m_get32),
+        (R(r"<Level as PartialOrd<LevelFilter>>::le$"), lambda it, c, a: z3.BoolVal(False)),          # logging disabled
+        (R(r"^max_level$|log::max_level$"), lambda it, c, a: I.Opaque("level")),
+        (R(r"Option::<goblin::elf::Sym>::expect$"), M.m_unwrap),
+    ]
+
+
+def linker_self(h, symbols=None, loaded=None, do_reloc=False):
+    return I.Agg("struct", "ElfLinker", [I.Opaque("filename"), PC.PMap(loaded or {}), I.Agg("struct", "Memory", [None, PC.PMap()]), PC.PMap(symbols or {}),
+                                         bv(0x80000000), PC.PVec(), z3.BoolVal(do_reloc), z3.BoolVal(False), M.none()])
+
+
+def concrete_names(h):
+    """symbol names are outside the claim: give every symbol a distinct, concrete string-table index"""
+    for i, s_ in enumerate(h.dyn): s_["st_name"] = bv(i + 1)
+    for i, s_ in enumerate(h.sym): s_["st_name"] = bv(i + 1)
+
+
+def check_linker_load(item):
+    """ElfLinker::load_elf of one object without dependencies and relocations: every exported symbol is entered into the
+    linker's symbol table at (file value + base), i.e. rebased once."""
+    prog, _ = program()
+    fn = find(prog, r"^elf_linker::<impl at lib/loader/elf/elf_linker\.rs:\d+:1: \d+:\d+>::load_elf$")
+    h = Harness(prog, ndyn=item["ndyn"])
+    concrete_names(h)
+    lm = LinkMem()
+    out = {"what": f"ElfLinker::load_elf dyn={item['ndyn']}", "paths": 0, "unsat": 0, "findings": [], "undecided": [], "solver_s": 0.0, "fn": fn, "calls": set()}
+    nowrap = z3.And(z3.ULT(h.base, bv(1 << 62)), *[z3.ULT(s_["st_value"], bv(1 << 62)) for s_ in h.dyn])
+    holder = {}
+
+    def mk(it):
+        it.solver.add(nowrap); it.pc.append(nowrap)
+        ls = linker_self(h); holder["self"] = ls
+        return [I.ValRef(ls), I.Opaque("path arg"), h.base]
+    it = Interp19(prog, W=64, models=linker_models(h, lm) + models_for(h) + PC.MODELS + K.CONTAINER_MODELS + M.MODELS, timeout_ms=20000)
+    seen = set()
+    for r in I.explore(it, fn, mk, max_paths=2000):
+        out["paths"] += 1; out["calls"] |= set(r["calls"])
+        pc = r["pc"]
+        if r["outcome"] == "unsupported":
+            out["undecided"].append("unsupported: " + r["msg"][:200]); continue
+        if r["outcome"] == "panic":
+            v, m, dt = solve.check(pc, 20000); out["solver_s"] += dt
+            if v == solve.SAT and "panic" not in seen:
+                seen.add("panic"); out["findings"].append({"kind": "panic", "detail": r["msg"][:120], "model": model_of(m, h)})
+            continue
+        res = val(r["value"])
+        if res.variant != 0:
+            v, m, dt = solve.check(pc, 20000); out["solver_s"] += dt
+            if v == solve.SAT and "err" not in seen:
+                seen.add("err"); out["findings"].append({"kind": "error", "detail": "load_elf returns Err for an object without dependencies", "model": model_of(m, h)})
+            continue
+        symtab = val(holder["self"].fields[3])
+        claims = []
+        for s_ in h.dyn:
+            exported = z3.And(s_["st_value"] != 0, s_["st_shndx"] != 0, z3.Or(z3.LShR(s_["st_info"], bv(4, 8)) == 1, z3.LShR(s_["st_info"], bv(4, 8)) == 2))
+            k = ("name", "dynstrtab", z3.simplify(s_["st_name"]).as_long())
+            present = k in symtab.d
+            claims.append(("exported symbol missing from the linker's symbol table (or a non-exported one entered)", exported == z3.BoolVal(present)))
+            if present:
+                claims.append(("exported symbol is not entered at (file value + base): rebased twice or not at all", z3.Implies(exported, val(symtab.d[k][1]) == s_["st_value"] + h.base)))
+        bad = z3.Or(*[z3.Not(c_) for _, c_ in claims]) if claims else z3.BoolVal(False)
+        v, m, dt = solve.check(pc + [bad], 30000); out["solver_s"] += dt
+        if v == solve.SAT:
+            for kind, c_ in claims:
+                if z3.is_false(m.eval(c_, model_completion=True)) and kind not in seen:
+                    seen.add(kind)
+                    got = {str(k_): solve.model_val(m, val(cell)) for k_, (cnd, cell) in symtab.d.items()}
+                    out["findings"].append({"kind": kind, "detail": f"symbol table {got}", "model": model_of(m, h)}); break
+        elif v == solve.UNDECIDED: out["undecided"].append("linker claims")
+        else: out["unsat"] += len(claims)
+    out["calls"] = sorted(out["calls"])
+    return out
+
+
+def check_linker_reloc(item):
+    """ElfLinker::relocations_x86 with one relocation of symbolic type: the relocated word at (r_offset + base) holds the
+    address the linker's symbol table gives for the symbol it names (R_386_32 / GLOB_DAT / JMP_SLOT) or old word + base (RELATIVE)."""
+    prog, _ = program()
+    fn = find(prog, r"^elf_linker::<impl at lib/loader/elf/elf_linker\.rs:\d+:1: \d+:\d+>::relocations_x86$")
+    h = Harness(prog, ndyn=1, nplt=1)
+    concrete_names(h)
+    lm = LinkMem()
+    symaddr = z3.BitVec("linker_symbol_address", 64)
+    have = item["resolvable"]
+    out = {"what": f"ElfLinker::relocations_x86 symbol {'in' if have else 'not in'} the symbol table", "paths": 0, "unsat": 0, "findings": [], "undecided": [], "solver_s": 0.0, "fn": fn, "calls": set()}
+    p = h.plt[0]
+    # 32-bit image: base, offsets and the relocated value stay inside the 32-bit address space (no wrap-around)
+    nowrap = z3.And(z3.ULT(h.base, bv(1 << 31)), z3.ULT(p["r_offset"], bv(1 << 31)), z3.ULT(symaddr, bv(1 << 32)),
+                    z3.ULT(z3.ZeroExt(32, z3.Select(lm.old, p["r_offset"] + h.base)) + h.base, bv(1 << 32)))
+
+    def mk(it):
+        it.solver.add(nowrap); it.pc.append(nowrap)
+        lm.writes.clear()
+        e = h.elf_self()
+        syms = {("name", "dynstrtab", 1): symaddr} if have else {}
+        ls = linker_self(h, symbols=syms, loaded={"main": e}, do_reloc=True)
+        return [I.ValRef(ls), "main"]
+    it = Interp19(prog, W=64, models=linker_models(h, lm) + models_for(h) + PC.MODELS + K.CONTAINER_MODELS + M.MODELS, timeout_ms=20000)
+    seen = set()
+    T32 = lambda x: z3.Extract(31, 0, x)
+    for r in I.explore(it, fn, mk, max_paths=2000):
+        out["paths"] += 1; out["calls"] |= set(r["calls"])
+        pc = r["pc"]
+        if r["outcome"] == "unsupported":
+            out["undecided"].append("unsupported: " + r["msg"][:200]); continue
+        rt = p["r_type"]; named = p["r_sym"] == bv(0)
+        symbolic_types = z3.Or(rt == 1, rt == 6, rt == 7)
+        if r["outcome"] == "panic":
+            # the only documented panic: the relocation names a symbol index that does not exist
+            v, m, dt = solve.check(pc + [z3.Not(z3.And(z3.Or(symbolic_types, rt == 2, rt == 4), z3.Not(named)))], 20000); out["solver_s"] += dt
+            if v == solve.SAT and "panic" not in seen:
+                seen.add("panic"); out["findings"].append({"kind": "panic", "detail": r["msg"][:120], "model": model_of(m, h)})
+            else: out["unsat"] += 1
+            continue
+        res = val(r["value"])
+        target = p["r_offset"] + h.base
+        writes = list(lm.writes)
+        if res.variant != 0:
+            # errors are acceptable for unresolvable symbols and for relocation types falcon does not implement; never for a resolvable 32/GLOB_DAT/JMP_SLOT/RELATIVE
+            must_work = z3.Or(z3.And(symbolic_types, named, z3.BoolVal(have)), z3.And(rt == 8, z3.Select(lm.mapped, target)))
+            v, m, dt = solve.check(pc + [must_work], 20000); out["solver_s"] += dt
+            if v == solve.SAT and "err" not in seen:
+                seen.add("err"); out["findings"].append({"kind": "relocation fails although it is resolvable", "detail": f"r_type={solve.model_val(m, rt)}", "model": model_of(m, h)})
+            elif v == solve.UNSAT: out["unsat"] += 1
+            continue
+        claims = []
+        if not writes:
+            claims.append(("a resolvable relocation writes nothing", z3.Not(z3.Or(z3.And(symbolic_types, named, z3.BoolVal(have)), rt == 8))))
+        for wa, wv in writes:
+            claims.append(("relocation writes at an address other than r_offset + base", wa == target))
+            claims.append(("relocated word is not the address the symbol table gives for the named symbol (resp. old word + base)",
+                           z3.If(rt == 8, wv == T32(h.base) + z3.Select(lm.old, target), z3.And(symbolic_types, wv == T32(symaddr)))))
+        bad = z3.Or(*[z3.Not(c_) for _, c_ in claims]) if claims else z3.BoolVal(False)
+        v, m, dt = solve.check(pc + [bad], 30000); out["solver_s"] += dt
+        if v == solve.SAT:
+            for kind, c_ in claims:
+                if z3.is_false(m.eval(c_, model_completion=True)) and kind not in seen:
+                    seen.add(kind); out["findings"].append({"kind": kind, "detail": f"r_type={solve.model_val(m, rt)} writes {[(hex(solve.model_val(m, a_)), hex(solve.model_val(m, v_))) for a_, v_ in writes]}", "model": model_of(m, h)}); break
+        elif v == solve.UNDECIDED: out["undecided"].append("reloc claims")
+        else: out["unsat"] += len(claims)
+    out["calls"] = sorted(out["calls"])
+    return out
+
+
+def check_linker_mips(item):
+    """ElfLinker::relocations_mips: GOT of local_gotno local and (symtabno - gotsym) global entries, <= 2 dynamic symbols.
+    Every GOT word gets the base added; the slot of an undefined global symbol then holds the address the linker's symbol
+    table gives for that symbol; the slot of a defined one keeps its rebased word; one R_MIPS_REL32 adds the base."""
+    prog, _ = program()
+    fn = find(prog, r"^elf_linker::<impl at lib/loader/elf/elf_linker\.rs:\d+:1: \d+:\d+>::relocations_mips$")
+    h = Harness(prog, ndyn=2)
+    concrete_names(h)
+    lgot, gotsym, symtabno, pltgot = (z3.BitVec(n_, 64) for n_ in ("local_gotno", "gotsym", "symtabno", "pltgot"))
+    h.dynamic = [(0x7000000a, lgot), (0x70000013, gotsym), (0x70000011, symtabno), (3, pltgot)]
+    rel = dict(r_offset=z3.BitVec("rel_offset", 64), r_sym=bv(0), r_type=z3.BitVec("rel_type", 32))
+    h.dynrels = [rel]
+    lm = LinkMem()
+    sa = [z3.BitVec(f"linker_symbol_address{i}", 64) for i in range(2)]
+    out = {"what": "ElfLinker::relocations_mips", "paths": 0, "unsat": 0, "findings": [], "undecided": [], "solver_s": 0.0, "fn": fn, "calls": set()}
+    ngot = lgot + (symtabno - gotsym)
+    slot = lambda i: h.base + pltgot + bv(4) * i
+    everything_mapped = z3.ForAll([z3.BitVec("a!", 64)], z3.Select(lm.mapped, z3.BitVec("a!", 64)))
+    wf = z3.And(z3.ULE(lgot, bv(1)), z3.ULE(gotsym, symtabno), symtabno == bv(2), z3.ULT(h.base, bv(1 << 30)), z3.ULT(pltgot, bv(1 << 30)), z3.ULT(rel["r_offset"], bv(1 << 30)),
+                (pltgot & 3) == 0, (rel["r_offset"] & 3) == 0, *[z3.ULT(a_, bv(1 << 32)) for a_ in sa],
+                # the relocated word lies outside the GOT (otherwise two rules apply to one word) and sums stay in 32 bits
+                z3.Or(z3.ULT(rel["r_offset"], pltgot), z3.UGE(rel["r_offset"], pltgot + bv(4) * ngot)),
+                z3.ULT(z3.ZeroExt(32, z3.Select(lm.old, rel["r_offset"] + h.base)) + h.base, bv(1 << 32)))
+
+    def mk(it):
+        it.solver.add(wf); it.pc.append(wf)
+        lm.writes.clear()
+        e = h.elf_self()
+        ls = linker_self(h, symbols={("name", "dynstrtab", 1): sa[0], ("name", "dynstrtab", 2): sa[1]}, loaded={"main": e}, do_reloc=True)
+        return [I.ValRef(ls), "main"]
+    extra = [(R(r"^get_dynamic$"), lambda it, c, a: it.call("get_dynamic", a)),
+             (R(r"Option::<goblin::elf::Dynamic>::and_then::<|Option::<Dynamic>::and_then::<"), lambda it, c, a: (it.call_closure(a[1], [val(a[0]).fields[0]]) if val(a[0]).variant == 1 else M.none())),
+             (R(r"Strtab::<'_>::get_at$"), lambda it, c, a: M.some(Name(val(a[0]).name, val(a[1])))),
+             (R(r"<impl u32>::wrapping_add$"), lambda it, c, a: val(a[0]) + val(a[1])),
+             (R(r"Option::<.*>::ok_or::<"), lambda it, c, a: (I.Agg("enum", "Result", [val(a[0]).fields[0]], 0) if val(a[0]).variant == 1 else I.Agg("enum", "Result", [I.Opaque("err")], 1))),
+             (R(r"<Error as From<.*>>::from$|<.* as Into<Error>>::into$"), lambda it, c, a: I.Agg("enum", "Error", [I.Opaque("custom")], it.prog.enums["Error"].index("Custom")))]
+    it = Interp19(prog, W=64, models=extra + linker_models(h, lm) + models_for(h) + PC.MODELS + K.CONTAINER_MODELS + M.MODELS, timeout_ms=20000)
+    # every word is mapped in this scenario (get32 never fails)
+    lm.mapped = z3.K(z3.BitVecSort(64), z3.BoolVal(True))
+    seen = set()
+    T32 = lambda x: z3.Extract(31, 0, x)
+    for r in I.explore(it, fn, mk, max_paths=4000):
+        out["paths"] += 1; out["calls"] |= set(r["calls"])
+        pc = r["pc"]
+        if r["outcome"] == "unsupported":
+            out["undecided"].append("unsupported: " + r["msg"][:200]); continue
+        if r["outcome"] == "panic":
+            v, m, dt = solve.check(pc, 20000); out["solver_s"] += dt
+            if v == solve.SAT and "panic" not in seen:
+                seen.add("panic"); out["findings"].append({"kind": "panic", "detail": r["msg"][:120], "model": model_of(m, h)})
+            continue
+        res = val(r["value"])
+        if res.variant != 0:
+            v, m, dt = solve.check(pc, 20000); out["solver_s"] += dt
+            if v == solve.SAT and "err" not in seen:
+                seen.add("err"); out["findings"].append({"kind": "relocation fails although every symbol resolves and every word is mapped", "detail": "Err", "model": model_of(m, h)})
+            continue
+        # final content of a word = last write to it, else the old content
+        def final(addr):
+            v_ = z3.Select(lm.old, addr)
+            for wa, wv in lm.writes:
+                v_ = z3.If(wa == addr, wv, v_)
+            return v_
+        claims = []
+        b32 = T32(h.base)
+        for i in range(0, 3):
+            inside = z3.ULT(bv(i), ngot)
+            glob = z3.And(inside, z3.UGE(bv(i), lgot))
+            word = final(slot(bv(i)))
+            rebased = z3.Select(lm.old, slot(bv(i))) + b32
+            for k_ in range(2):
+                this = z3.And(glob, bv(i) - lgot + gotsym == bv(k_))
+                undefined = h.dyn[k_]["st_shndx"] == 0
+                claims.append((f"GOT slot of an undefined global symbol does not hold the address of the symbol it names", z3.Implies(z3.And(this, undefined), word == T32(sa[k_]))))
+                claims.append((f"GOT slot of a defined global symbol is not the rebased original word", z3.Implies(z3.And(this, z3.Not(undefined)), word == rebased)))
+            claims.append(("local GOT entry is not rebased exactly once", z3.Implies(z3.And(inside, z3.Not(glob)), word == rebased)))
+            claims.append(("a word after the GOT is modified", z3.Implies(z3.And(z3.Not(inside), slot(bv(i)) != rel["r_offset"] + h.base), word == z3.Select(lm.old, slot(bv(i))))))
+        tgt = rel["r_offset"] + h.base
+        claims.append(("R_MIPS_REL32 word is not old word + base", z3.Implies(rel["r_type"] == 3, final(tgt) == z3.Select(lm.old, tgt) + b32)))
+        bad = z3.Or(*[z3.Not(c_) for _, c_ in claims])
+        v, m, dt = solve.check(pc + [bad], 60000); out["solver_s"] += dt
+        if v == solve.SAT:
+            for kind, c_ in claims:
+                if z3.is_false(m.eval(c_, model_completion=True)) and kind not in seen:
+                    seen.add(kind)
+                    out["findings"].append({"kind": kind, "detail": f"local_gotno={solve.model_val(m, lgot)} gotsym={solve.model_val(m, gotsym)} symtabno={solve.model_val(m, symtabno)} writes {[(hex(solve.model_val(m, a_)), hex(solve.model_val(m, v_))) for a_, v_ in lm.writes]}", "model": model_of(m, h)}); break
+        elif v == solve.UNDECIDED: out["undecided"].append("mips reloc claims")
+        else: out["unsat"] += len(claims)
+    out["calls"] = sorted(out["calls"])
+    return out
+
+
 def work(item):
-    return {"memory": check_memory, "entries": check_entries, "new": check_new}[item["t"]](item)
+    return {"link-mips": check_linker_mips, "memory": check_memory, "entries": check_entries, "new": check_new, "link-load": check_linker_load, "link-reloc": check_linker_reloc}[item["t"]](item)
 
 
 def main():
@@ -556,6 +842,9 @@ def main():
     for nd in (0, 1, 2) + ((3,) if T else ()):
         items.append({"t": "entries", "fn": "exported_symbols", "ndyn": nd, "nsym": 0})
     items.append({"t": "new"})
+    for nd in (0, 1, 2):
+        items.append({"t": "link-load", "ndyn": nd})
+    items += [{"t": "link-reloc", "resolvable": True}, {"t": "link-reloc", "resolvable": False}, {"t": "link-mips"}]
     results = common.pmap(work, items, chunksize=1)
     fns = {}
     paths = 0
